@@ -676,3 +676,62 @@ fn test_ecm_small() {
         }
     }
 }
+
+/// Access to private items for the verification harness.
+#[cfg(yamaquasi_verif)]
+pub mod verif_access {
+    use super::*;
+
+    pub fn m128_inv_2adic(n: u128) -> u128 {
+        M128::inv_2adic(n)
+    }
+    pub fn m128_r_r2(n: u128, ninv: u128) -> (u128, u128) {
+        let (r, r2) = M128::r_r2(n, ninv);
+        (r.0, r2.0)
+    }
+    pub fn m128_add(n: u128, x: u128, y: u128) -> u128 {
+        M128::add(n, M128(x), M128(y)).0
+    }
+    pub fn m128_sub(n: u128, x: u128, y: u128) -> u128 {
+        M128::sub(n, M128(x), M128(y)).0
+    }
+    pub fn m128_mul(n: u128, ninv: u128, x: u128, y: u128) -> u128 {
+        M128::mul(n, ninv, M128(x), M128(y)).0
+    }
+
+    /// Raw (Montgomery form) coordinates.
+    pub fn point_raw(p: &Point) -> (u128, u128, u128) {
+        (p.0 .0, p.1 .0, p.2 .0)
+    }
+    pub fn point_from_raw(x: u128, y: u128, z: u128) -> Point {
+        Point(M128(x), M128(y), M128(z))
+    }
+    pub fn extpoint_raw(p: &ExtPoint) -> (u128, u128, u128, u128) {
+        (p.0 .0, p.1 .0, p.2 .0, p.3 .0)
+    }
+    /// (n, ninv, one)
+    pub fn curve_params(c: &Curve) -> (u128, u128, u128) {
+        (c.n, c.ninv, c.one.0)
+    }
+    pub fn dbladd(c: &Curve, p: &Point, q: &ExtPoint) -> Point {
+        c.dbladd(p, q)
+    }
+    pub fn add(c: &Curve, p: &ExtPoint, q: &ExtPoint) -> ExtPoint {
+        c.add(p, q)
+    }
+    pub fn double(c: &Curve, p: &Point) -> Point {
+        c.double(p)
+    }
+    pub fn dblext(c: &Curve, p: &Point) -> ExtPoint {
+        c.dblext(p)
+    }
+    pub fn is_valid(c: &Curve, p: &ExtPoint) -> bool {
+        c.is_valid(p)
+    }
+    pub fn ecm_curve(c: &Curve, sb: &ecm::SmoothBase, b2: f64) -> Option<(u128, u128)> {
+        super::ecm_curve(c, sb, b2, Verbosity::Silent)
+    }
+    pub fn ecm(n: u128, curves: usize, b1: u64, b2: f64) -> Option<(u128, u128)> {
+        super::ecm(n, curves, b1, b2, Verbosity::Silent)
+    }
+}
